@@ -191,5 +191,6 @@ pub fn catch<T>(f: impl FnOnce() -> T) -> Result<T, String> {
 
 /// Silences the default panic hook output (we catch and report panics ourselves).
 pub fn quiet_panics() {
+    if std::env::var_os("AG_LOUD").is_some() { return; }
     std::panic::set_hook(Box::new(|_| {}));
 }
